@@ -10,6 +10,7 @@ import LinVerif.Model.Master
 import LinVerif.Generated.C18
 import LinVerif.Lemmas.C18Assign
 import LinVerif.Lemmas.C18Master
+import LinVerif.Lemmas.C18Config
 
 namespace LinVerif.Props.C18
 open LinVerif LinVerif.Assign LinVerif.Master LinVerif.Lemmas.C18
@@ -571,6 +572,332 @@ example :
     streamOf (.node 1) [Event.nodeUp 1, .assignChanged 0 [(0, [1])], .nodeDown 1]
       = streamOf (.node 1) [Event.assignChanged 0 [(0, [1])], .nodeUp 1, .nodeDown 1] := by
   rfl
+
+/-! ## 9. The database-config handler on the repository: registrations vs. the manager's view,
+repository read faults -/
+
+/-- `storageCluster.GetLiveNodes` lists the registration keys and decodes them; it does not read
+`c.state.LiveNodes` (no fast path): the model's `getLiveNodes` ignores the manager's view. -/
+theorem tie_getLiveNodes :
+    Generated.C18.getLiveNodesShape = ["assign kvs,err = call repo.List", "if", "cond err != nil", "{",
+      "return nil,err", "}", "range kvs", "{", "assign node = models.StatefulNode{}", "if",
+      "assign err = call json.Unmarshal", "cond err != nil", "{", "return nil,err", "}",
+      "assign rs = call append", "}", "return rs,nil"] ∧
+    Generated.C18.getLiveNodesCalls = ["repo.List", "json.Unmarshal", "append"] := by
+  decide
+
+/-- `GetShardAssign` passes the repository's error on unchanged (`if err != nil { return nil, err }`
+right after the `Get`), and `shardAssignment()` gives up on every error but `ErrNotExist`; creation
+happens only for `shardAssign == nil`: the model's `getShardAssign` / `cfgHandle` dispatch. -/
+theorem tie_getShardAssign :
+    Generated.C18.getShardAssignHandlerShape = ["assign data,err = call masterRepo.Get", "if", "cond err != nil",
+      "{", "return nil,err", "}", "assign shardAssign = &models.ShardAssignment{}", "if",
+      "assign err = call encoding.JSONUnmarshal", "cond err != nil", "{", "return nil,err", "}",
+      "return shardAssign,nil"] := by
+  decide
+
+theorem tie_shardAssignment_dispatch :
+    Generated.C18.shardAssignmentHandlerShape = ["if", "cond databaseCfg.Name == \"\"", "{", "return", "}",
+      "assign cluster = m.storage", "assign m.databases[databaseCfg.Name] = databaseCfg",
+      "assign shardAssign,err = call m.GetShardAssign", "if",
+      "cond err != nil && err != statepkg.ErrNotExist", "{", "return", "}", "switch", "{",
+      "case shardAssign == nil", "assign _,err = call m.createShardAssignment", "if", "cond err != nil", "{",
+      "return", "}", "case len(shardAssign.Shards) != databaseCfg.NumOfShard", "if",
+      "assign err = call m.modifyShardAssignment", "cond err != nil", "{", "return", "}", "default",
+      "assign data = call encoding.JSONMarshal", "if", "assign err = call masterRepo.Put", "cond err != nil",
+      "{", "return", "}", "}"] := by
+  decide
+
+/-- create and grow: the nodes come from `storage.GetLiveNodes()` (error / empty list → return before
+anything is written), the assignment is written with `masterRepo.Put` and then
+`storage.SaveDatabaseAssignment`, each error returned at once -/
+theorem tie_create_modify_handlers :
+    Generated.C18.createShardAssignmentHandlerShape = ["assign liveNodes,err = call storage.GetLiveNodes", "if",
+      "cond err != nil", "{", "return nil,err", "}", "if", "cond len(liveNodes) == 0", "{",
+      "return nil,constants.ErrNoLiveNode", "}", "assign databaseName = cfg.Name", "stmt *ast.DeclStmt",
+      "assign nodes = call make", "range liveNodes", "{", "assign node = liveNodes[idx]",
+      "assign nodeIDs = call append", "assign nodes[node.ID] = &node", "}",
+      "assign shardAssign,err = call ShardAssignment", "if", "cond err != nil", "{", "return nil,err", "}",
+      "assign data = call encoding.JSONMarshal", "if", "assign err = call masterRepo.Put", "cond err != nil", "{",
+      "return nil,err", "}", "if", "assign err = call storage.SaveDatabaseAssignment", "cond err != nil", "{",
+      "return nil,err", "}", "return shardAssign,nil"] ∧
+    Generated.C18.modifyShardAssignmentHandlerShape = ["assign nodes = call make", "if",
+      "cond len(shardAssign.Shards) > cfg.NumOfShard", "{", "call panic", "}", "else", "{", "if",
+      "cond len(shardAssign.Shards) < cfg.NumOfShard", "{", "assign liveNodes,err = call storage.GetLiveNodes",
+      "if", "cond err != nil", "{", "return err", "}", "if", "cond len(liveNodes) == 0", "{",
+      "return constants.ErrNoLiveNode", "}", "stmt *ast.DeclStmt", "range liveNodes", "{",
+      "assign node = liveNodes[idx]", "assign nodeIDs = call append", "assign nodes[node.ID] = &node", "}",
+      "assign err = call ModifyShardAssignment", "if", "cond err != nil", "{", "return err", "}", "}", "}",
+      "assign databaseName = cfg.Name", "assign data = call encoding.JSONMarshal", "if",
+      "assign err = call masterRepo.Put", "cond err != nil", "{", "return err", "}", "if",
+      "assign err = call storage.SaveDatabaseAssignment", "cond err != nil", "{", "return err", "}",
+      "return nil"] := by
+  decide
+
+/-- the watch callbacks of the master's state machines: a registration key that appears becomes
+`NodeStartup`, one that vanishes `NodeFailure`; a config key `DatabaseConfigChanged` /
+`DatabaseConfigDeletion`; an assignment key `ShardAssignmentChanged` (create callback first, delete
+callback second) — the event kinds `register` / `crash` / `cfg` / `drop` / `deliverAsg` of the
+`World` model queue resp. apply -/
+theorem tie_factory_event_types :
+    Generated.C18.factoryEventTypes = [
+      "createStorageNodeStateMachine: watch constants.StorageLiveNodesPath, discovery.NodeStartup, discovery.NodeFailure",
+      "createDatabaseConfigStateMachine: watch constants.DatabaseConfigPath, discovery.DatabaseConfigChanged, discovery.DatabaseConfigDeletion",
+      "createShardAssignmentStateMachine: watch constants.ShardAssignmentPath, discovery.ShardAssignmentChanged, discovery.ShardAssignmentDeletion"] :=
+  rfl
+
+/-- a failed read of the persisted assignment (any error but ErrNotExist) never leads to a write:
+the repository is left exactly as it was — an existing database is not taken for a new one -/
+theorem cfg_read_fault_changes_nothing (r : Store) (view : List Nat) (db : Nat) (numShards rf : Int)
+    (start shift : Nat) (f : Faults) (hf : f.get = true) :
+    cfgHandle r view db numShards rf start shift f = r := by
+  unfold cfgHandle getShardAssign
+  simp [hf]
+
+/-- placement does not depend on the manager's own view of the live nodes at all -/
+theorem cfg_ignores_managers_view (r : Store) (view view' : List Nat) (db : Nat) (numShards rf : Int)
+    (start shift : Nat) (f : Faults) :
+    cfgHandle r view db numShards rf start shift f = cfgHandle r view' db numShards rf start shift f := rfl
+
+/-- a config event of one database leaves every other database's persisted assignment and the
+registrations untouched -/
+theorem cfg_other_databases_untouched (r : Store) (view : List Nat) (db db' : Nat) (numShards rf : Int)
+    (start shift : Nat) (f : Faults) (h : db ≠ db') :
+    Map.lookup (cfgHandle r view db numShards rf start shift f).asgs db' = Map.lookup r.asgs db' ∧
+    (cfgHandle r view db numShards rf start shift f).reg = r.reg := by
+  have ho := cfgHandle_outcome r view db numShards rf start shift f
+  generalize cfgHandle r view db numShards rf start shift f = r' at ho
+  cases ho with
+  | unchanged => exact ⟨rfl, rfl⟩
+  | created a => exact ⟨putAsg_lookup_ne _ _ _ _ _ h, putAsg_reg _ _ _ _⟩
+  | grown a a' => exact ⟨putAsg_lookup_ne _ _ _ _ _ h, putAsg_reg _ _ _ _⟩
+  | retriggered a => exact ⟨putAsg_lookup_ne _ _ _ _ _ h, putAsg_reg _ _ _ _⟩
+
+/-- "growing the shard count keeps existing shards where they are", for the handler as a whole:
+whatever the config event asks for, whichever repository calls fail, whatever the registrations
+and the manager's view are — every shard of the persisted assignment keeps its replica list. -/
+theorem cfg_keeps_existing_shards (r : Store) (view : List Nat) (db : Nat) (numShards rf : Int)
+    (start shift : Nat) (f : Faults) (a : Assignment) (hl : Map.lookup r.asgs db = some a) (hd : Dense a) :
+    ∃ a', Map.lookup (cfgHandle r view db numShards rf start shift f).asgs db = some a' ∧
+      ∀ s rs, Map.lookup a s = some rs → Map.lookup a' s = some rs := by
+  have ho := cfgHandle_outcome r view db numShards rf start shift f
+  generalize cfgHandle r view db numShards rf start shift f = r' at ho
+  cases ho with
+  | unchanged => exact ⟨a, hl, fun _ _ h => h⟩
+  | created a0 _ _ hn => rw [hl] at hn; cases hn
+  | grown a0 a1 _ _ hl0 _ hok =>
+    rw [hl] at hl0; cases hl0
+    rw [putAsg_lookup_self]
+    split
+    · exact ⟨a, hl, fun _ _ h => h⟩
+    · exact ⟨a1, rfl, modify_keeps_existing r.reg numShards rf a start shift (fun s rs h => hd.lt h) a1 hok⟩
+  | retriggered a0 _ hl0 =>
+    rw [hl] at hl0; cases hl0
+    rw [putAsg_lookup_self]
+    split
+    · exact ⟨a, hl, fun _ _ h => h⟩
+    · exact ⟨a, rfl, fun _ _ h => h⟩
+
+/-- "replicas taken from the nodes alive at creation", for the handler as a whole: every shard a
+config event ADDS to a database's persisted assignment (all shards of a created database, the new
+shards of a grown one) gets exactly `rf` distinct nodes that are REGISTERED when the event is
+handled — for every view the manager may hold (any lag of the node watch), any faults. -/
+theorem cfg_new_shards_on_registered (r : Store) (view : List Nat) (db : Nat) (numShards rf : Int)
+    (start shift : Nat) (f : Faults) (hreg : r.reg.Nodup)
+    (hd : ∀ a, Map.lookup r.asgs db = some a → Dense a)
+    (a' : Assignment) (s : Nat) (rs : List Nat)
+    (hl' : Map.lookup (cfgHandle r view db numShards rf start shift f).asgs db = some a')
+    (hs : Map.lookup a' s = some rs)
+    (hnew : ∀ a, Map.lookup r.asgs db = some a → Map.lookup a s = none) :
+    ValidReplicas r.reg rf.toNat rs := by
+  have ho := cfgHandle_outcome r view db numShards rf start shift f
+  generalize cfgHandle r view db numShards rf start shift f = r' at ho hl'
+  have old : Map.lookup r.asgs db = some a' → False := by
+    intro h; rw [hnew a' h] at hs; cases hs
+  cases ho with
+  | unchanged => exact (old hl').elim
+  | created a0 _ _ hn _ hok =>
+    rw [putAsg_lookup_self] at hl'
+    split at hl'
+    · exact (old hl').elim
+    · cases hl'
+      obtain ⟨p1, p2, p3⟩ := shardAssignment_ok_pos hok
+      obtain ⟨res, hok', hin, hout⟩ := shardAssignment_valid r.reg hreg numShards rf start shift 0 p1 p2 p3
+      rw [hok] at hok'; cases hok'
+      by_cases hr : (s : Int) < (0 : Nat) + numShards
+      · obtain ⟨rs', h1, hv⟩ := hin s (Nat.zero_le _) hr
+        rw [hs] at h1; cases h1; exact hv
+      · have := hout s (Or.inr (by omega))
+        rw [hs] at this; cases this
+  | grown a0 a1 _ _ hl0 hlt hok =>
+    rw [putAsg_lookup_self] at hl'
+    split at hl'
+    · exact (old hl').elim
+    · cases hl'
+      have hd0 := hd a0 hl0
+      obtain ⟨p1, p2, p3⟩ := modifyShardAssignment_ok_pos hok
+      obtain ⟨res, hok', hin, hout⟩ := modifyShardAssignment_valid r.reg hreg numShards rf a0 start shift a0.length
+        (fun s hs => hd0.none_of_le hs) p1 p2 p3
+      rw [hok] at hok'; cases hok'
+      have hnone := hnew a0 hl0
+      have hge : a0.length ≤ s := by
+        apply Classical.byContradiction
+        intro hn
+        have := (hd0.ids s).mpr (by omega)
+        rw [hnone] at this; cases this
+      by_cases hr : (s : Int) < a0.length + (numShards - a0.length)
+      · obtain ⟨rs', h1, hv⟩ := hin s hge hr
+        rw [hs] at h1; cases h1; exact hv
+      · have := hout s (Or.inr (by omega))
+        rw [hs, hnone] at this; cases this
+  | retriggered a0 _ hl0 =>
+    rw [putAsg_lookup_self] at hl'
+    split at hl'
+    · exact (old hl').elim
+    · cases hl'; exact (old hl0).elim
+
+/-- The whole system — registrations appear and vanish, the node watch hands the events over late,
+databases are created / grown / altered in between with any of the handler's repository calls
+failing, assignments are delivered at any time, databases are dropped — for EVERY such history:
+registrations form a set, every persisted assignment has shard ids `0..n-1`, and the manager
+satisfies the leadership invariant `Inv` (so `churn_leadership` holds of its state). -/
+theorem world_invariant (es : List WEvent) :
+    let w := wrun World.init es
+    w.store.reg.Nodup ∧ (∀ db a, Map.lookup w.store.asgs db = some a → Dense a) ∧ Inv w.st :=
+  let h := winv_run es World.init winv_init
+  ⟨h.reg, h.dense, h.st⟩
+
+/-- "registered" is what the history of registration changes says -/
+theorem registered_is_registration_history (es : List WEvent) (r : Nat) :
+    r ∈ (wrun World.init es).store.reg ↔ registeredAfter r es false = true := by
+  have := mem_reg_wrun r es World.init
+  simpa [World.init] using this
+
+/-- In every reachable world, whatever the manager currently believes about the live nodes, a config
+event places every added shard on `rf` distinct nodes that are registered at that moment. -/
+theorem world_placement_on_registered (es : List WEvent) (db : Nat) (numShards rf : Int)
+    (start shift : Nat) (f : Faults) (a' : Assignment) (s : Nat) (rs : List Nat) :
+    let w := wrun World.init es
+    Map.lookup (wstep w (.cfg db numShards rf start shift f)).store.asgs db = some a' →
+    Map.lookup a' s = some rs →
+    (∀ a, Map.lookup w.store.asgs db = some a → Map.lookup a s = none) →
+    rs.length = rf.toNat ∧ rs.Nodup ∧ ∀ x ∈ rs, registeredAfter x es false = true := by
+  intro w hl' hs hnew
+  have hw := winv_run es World.init winv_init
+  obtain ⟨h1, h2, h3⟩ := cfg_new_shards_on_registered w.store w.st.live db numShards rf start shift f hw.reg
+    (fun a h => hw.dense db a h) a' s rs hl' hs hnew
+  exact ⟨h1, h2, fun x hx => (registered_is_registration_history es x).mp (h3 x hx)⟩
+
+/-- Lag is only lag: in every reachable world the manager's live set, advanced by the node events
+that are still queued, IS the registered set; once the node watch has caught up the two coincide. -/
+theorem world_view_catches_up (es : List WEvent) :
+    let w := wrun World.init es
+    (∀ r, r ∈ (run w.st w.nodeq).live ↔ r ∈ w.store.reg) ∧
+    (w.nodeq = [] → ∀ r, r ∈ w.st.live ↔ r ∈ w.store.reg) := by
+  intro w
+  have h : ViewInv w := viewInv_run es World.init viewInv_init
+  refine ⟨h, fun hq r => ?_⟩
+  have := h r
+  rw [hq] at this
+  exact this
+
+/-- The property's second sentence for the whole system, with "alive" = REGISTERED: whenever the
+node watch has caught up (no node event queued), after any history of registration changes, late
+deliveries, creates / grows with faults, assignment deliveries and drops, every reported shard is
+online exactly when one of its replicas is registered, and an online shard's leader is a registered
+replica of that shard. -/
+theorem world_quiescent_leadership (es : List WEvent) :
+    let w := wrun World.init es
+    w.nodeq = [] →
+    ∀ db ss, (db, ss) ∈ w.st.shards → ∀ sid s, (sid, s) ∈ ss →
+      ∃ a rs, (db, a) ∈ w.st.asg ∧ (sid, rs) ∈ a ∧
+        (s.state = stOnline ↔ ∃ r, r ∈ rs ∧ r ∈ w.store.reg) ∧
+        (s.state = stOnline → ∃ l : Nat, s.leader = (l : Int) ∧ l ∈ w.store.reg ∧ l ∈ rs) ∧
+        (s.state ≠ stOnline → s.state = stOffline ∧ s.leader = -1) := by
+  intro w hq db ss hdb sid s hsid
+  have hinv : Inv w.st := (world_invariant es).2.2
+  have hv := (world_view_catches_up es).2 hq
+  have h1 := lookup_of_mem w.st.shards db ss hinv.shards_keys hdb
+  obtain ⟨a, ha, hok⟩ := hinv.db_ok db ss h1
+  have h2 := lookup_of_mem ss sid s hok.st_keys hsid
+  obtain ⟨rs, hr, hso⟩ := hok.shard_ok sid s h2
+  refine ⟨a, rs, mem_of_lookup _ _ _ ha, mem_of_lookup _ _ _ hr, ?_, ?_, hso.offline⟩
+  · rw [hso.online_iff]
+    constructor
+    · rintro ⟨r, hr1, hr2⟩; exact ⟨r, hr1, (hv r).mp hr2⟩
+    · rintro ⟨r, hr1, hr2⟩; exact ⟨r, hr1, (hv r).mpr hr2⟩
+  · intro ho
+    obtain ⟨l, k1, k2, k3⟩ := hso.leader_ok ho
+    exact ⟨l, k1, (hv l).mp k2, k3⟩
+
+/-- one step of the world keeps a persisted shard unless its database is dropped -/
+theorem wstep_keeps_shard (w : World) (hw : WInv w) (e : WEvent) (db s : Nat) (a : Assignment) (rs : List Nat)
+    (hl : Map.lookup w.store.asgs db = some a) (hs : Map.lookup a s = some rs) (hne : e ≠ .drop db) :
+    ∃ a', Map.lookup (wstep w e).store.asgs db = some a' ∧ Map.lookup a' s = some rs := by
+  cases e with
+  | register id => exact ⟨a, hl, hs⟩
+  | crash id => exact ⟨a, hl, hs⟩
+  | deliverNode =>
+    refine ⟨a, ?_, hs⟩
+    simp only [wstep]; split <;> exact hl
+  | deliverAsg d =>
+    refine ⟨a, ?_, hs⟩
+    simp only [wstep]; split <;> exact hl
+  | drop d =>
+    refine ⟨a, ?_, hs⟩
+    have hd : d ≠ db := fun e => hne (by rw [e])
+    show Map.lookup (Map.erase w.store.asgs d) db = some a
+    rw [Map.lookup_erase_ne _ _ _ hd]; exact hl
+  | cfg d numShards rf start shift f =>
+    by_cases hd : d = db
+    · subst hd
+      obtain ⟨a', h1, h2⟩ := cfg_keeps_existing_shards w.store w.st.live d numShards rf start shift f a hl
+        (hw.dense d a hl)
+      exact ⟨a', h1, h2 s rs hs⟩
+    · refine ⟨a, ?_, hs⟩
+      show Map.lookup (cfgHandle w.store w.st.live d numShards rf start shift f).asgs db = some a
+      rw [(cfg_other_databases_untouched w.store w.st.live d db numShards rf start shift f hd).1]; exact hl
+
+/-- A persisted shard never moves: once shard `s` of database `db` is persisted with replica list
+`rs`, it keeps exactly that list through every later history (node churn, late events, creates and
+grows of any database with any repository faults, assignment deliveries, drops of OTHER databases)
+until `db` itself is dropped. -/
+theorem world_shards_never_move (es fs : List WEvent) (db s : Nat) (a : Assignment) (rs : List Nat)
+    (hl : Map.lookup (wrun World.init es).store.asgs db = some a) (hs : Map.lookup a s = some rs)
+    (hnd : ∀ e ∈ fs, e ≠ .drop db) :
+    ∃ a', Map.lookup (wrun World.init (es ++ fs)).store.asgs db = some a' ∧ Map.lookup a' s = some rs := by
+  have key : ∀ (fs : List WEvent) (w : World), WInv w → ∀ a, Map.lookup w.store.asgs db = some a →
+      Map.lookup a s = some rs → (∀ e ∈ fs, e ≠ .drop db) →
+      ∃ a', Map.lookup (wrun w fs).store.asgs db = some a' ∧ Map.lookup a' s = some rs := by
+    intro fs
+    induction fs with
+    | nil => intro w _ a hl hs _; exact ⟨a, hl, hs⟩
+    | cons e t ih =>
+      intro w hw a hl hs hnd
+      obtain ⟨a1, h1, h2⟩ := wstep_keeps_shard w hw e db s a rs hl hs (hnd e List.mem_cons_self)
+      exact ih (wstep w e) (winv_step hw e) a1 h1 h2 (fun e' he' => hnd e' (List.mem_cons_of_mem _ he'))
+  have : wrun World.init (es ++ fs) = wrun (wrun World.init es) fs := by
+    unfold wrun; rw [List.foldl_append]
+  rw [this]
+  exact key fs _ (winv_run es World.init winv_init) a hl hs hnd
+
+/-- non-vacuity (the lagging node watch): node 3's registration is gone, its NodeFailure event is
+still queued; the manager believes 1, 2, 3 alive; a database created now lands on 1 and 2 only -/
+example :
+    let w := wrun World.init [.register 1, .register 2, .register 3, .deliverNode, .deliverNode, .deliverNode,
+      .crash 3, .cfg 0 3 1 0 0 Faults.none]
+    w.st.live = [1, 2, 3] ∧ w.store.reg = [1, 2] ∧ w.nodeq.length = 1 ∧
+      w.store.asgs = [(0, [(0, [1]), (1, [2]), (2, [1])])] := by
+  decide
+
+/-- non-vacuity (read fault): two more nodes joined, the grow's read of the assignment fails — the
+persisted assignment stays; the same grow without the fault extends it and keeps shards 0, 1 -/
+example :
+    let w := wrun World.init [.register 1, .register 2, .cfg 0 2 2 0 0 Faults.none, .register 3, .register 4]
+    (wstep w (.cfg 0 4 2 1 1 { get := true, list := false, put := false })).store.asgs = [(0, [(0, [1, 2]), (1, [2, 1])])] ∧
+    (wstep w (.cfg 0 4 2 1 1 Faults.none)).store.asgs
+      = [(0, [(0, [1, 2]), (1, [2, 1]), (2, [4, 2]), (3, [1, 3])])] := by
+  decide
 
 /-! ## Non-vacuity -/
 
